@@ -38,6 +38,7 @@ structure St where
   reps : Array (Option Rep) := #[]
   shared : Bool := false
   acl : Bool := false
+  keyed : Bool := false
   sort : SortKind := .lww
   lineNo : Nat := 0
   hist : String := ""
@@ -122,7 +123,8 @@ def handle (s : St) (line : String) : St :=
     let sk := match rest.find? (·.startsWith "sort=") with
       | some x => parseSort (x.drop 5).toString
       | none => .lww
-    { s with uni := {}, store := [], reps := #[], shared := shared, acl := acl, sort := sk, hist := idx, inExchange := false }
+    { s with uni := {}, store := [], reps := #[], shared := shared, acl := acl, sort := sk, hist := idx, inExchange := false,
+             keyed := rest.any (· == "keyed=true") }
   | ["U", a, cidS] =>
     { s with uni := s.uni.insert a { hash := strBytes cidS, logId := [], next := [], refs := [], clock := { id := [], time := 0 } } }
   | ["E", a, cidS, logId, clk, time, nx, rf] =>
@@ -188,6 +190,10 @@ def handle (s : St) (line : String) : St :=
       | .err => if res == "err" then s.count "cmp:join.rejected" else s.diff "join.result" "err" res
       | .ok l' =>
         let s := if res == "ok" then s else s.diff "join.result" "ok" res
+        -- C06: entries produced by Append are mergeable — when the destination denies nobody and the
+        -- source holds no tampered entry, the merge must succeed (under every codec configuration)
+        let s := if a.deny.isEmpty && b.invalid.isEmpty && !b.hasWrongId then
+            s.spec "C06" "appendedMergeable" (res == "ok") s!"join {r} {r2} {size} -> {res} (keyed={s.keyed})" else s
         let total := (omFromList (a.log.entries ++ b.log.entries)).length
         let cut := sz > -1 && sz < total && a.log.id == b.log.id
         -- C16: the bounded join must keep the last min(n,total) values of the unbounded join
@@ -377,6 +383,17 @@ def handle (s : St) (line : String) : St :=
   | ["Z", r] =>
     -- forget a replica (it was only built to be compared with its source)
     if r.toNat! < s.reps.size then { s with reps := s.reps.set! r.toNat! none } else s
+  | "EX" :: a :: whatL =>
+    let what := " ".intercalate whatL
+    -- an entry object read back from the store (or copied) whose links or clock differ from the entry
+    -- first seen under that hash: read-back is not the inverse of writing (C08); with a link key the
+    -- same-key reader did not recover the lists (C18)
+    let s := s.spec "C08" "readBackLinks" false s!"{a} {what}"
+    if s.keyed then s.spec "C18" "sameKeyRecovers" false s!"{a} {what}" else s
+  | ["K", blocks, linked] =>
+    let s := s.count "cmp:keyed-history"
+    let s := s.spec "C08" "readBackLinks" true
+    s.spec "C18" "noStoredLinks" (linked == "0") s!"{linked} of {blocks} entry blocks carry links"
   | ["X", "begin"] => { s with inExchange := true, lastOp := "exchange" }
   | ["X", "end"] =>
     -- C01: after a complete exchange all replicas of one id agree
